@@ -162,6 +162,10 @@ func (r *Rec) hook() func(r *Rec, idx int, e Ev) { return r.Hook }
 func (r *Rec) yields() bool { return r.YieldIn }
 
 func (r *Rec) on(ctx context.Context, e Ev) {
+	if r.yields() {
+		// before the entry is logged: a check-then-deliver window in the library stays open here
+		vrt.Yield()
+	}
 	i := r.enter(ctx, e)
 	if i < 0 {
 		return
